@@ -50,6 +50,8 @@ func parseOps(f []string) ([]op, error) {
 			o.kind = 'a'
 		} else if _, err := fmt.Sscanf(t, "r%d.%d", &o.sess, &o.node); err == nil {
 			o.kind = 'r'
+		} else if _, err := fmt.Sscanf(t, "d%d.%d", &o.sess, &o.node); err == nil {
+			o.kind = 'd'
 		} else {
 			return nil, fmt.Errorf("bad op %q", t)
 		}
